@@ -29,9 +29,9 @@ var c05Cmp *eng.Kind[CmpCase]
 
 func init() {
 	c := eng.Register(&eng.Check{
-		ID:    "C05",
-		Title: "Ordering and equality are lawful and representation-independent",
-		Rule: "value grid: 205 number spellings (coefficient -20..20 x exponent -2..2), special numbers (-0, 0.0, 34-digit values, 1e30, 1e-30, results of arithmetic, values from the data map, infinities), 18 strings (empty, ASCII, multi-byte, invalid UTF-8), booleans, three kinds of null; every ordered pair is evaluated under all eight operators in one formula and the eight results are judged against the laws of the statement and the exact numeric / byte-wise order; distinct = distinct result vectors",
+		ID:          "C05",
+		Title:       "Ordering and equality are lawful and representation-independent",
+		Rule:        "value grid: 205 number spellings (coefficient -20..20 x exponent -2..2), special numbers (-0, 0.0, 34-digit values, 1e30, 1e-30, results of arithmetic, values from the data map, infinities), 18 strings (empty, ASCII, multi-byte, invalid UTF-8), booleans, three kinds of null; every ordered pair is evaluated under all eight operators in one formula and the eight results are judged against the laws of the statement and the exact numeric / byte-wise order; distinct = distinct result vectors",
 		TrustedBase: []string{"internal/ref/dec.go exact comparison", "Go string comparison (byte-wise)"},
 		Assumptions: []string{"mixed-kind < and == are only subject to the negation laws", "NaN is not in the grid (the order clause is about finite numbers)"},
 		Run:         runC05,
